@@ -181,6 +181,21 @@ func Yield(site string) {
 	}
 }
 
+// DenseYields switches the statement-granularity scheduling points (rewriter option -dense) on. They exist in a
+// few functions that share plain memory with lock-free readers; only the profile that studies those functions
+// (C19) turns them on, for every other profile they are free of cost and do not lengthen the runs.
+var DenseYields bool
+
+// MemYield is a scheduling point before a plain statement.
+func MemYield(site string) {
+	if !DenseYields {
+		return
+	}
+	if rt, t := cur(); t != nil {
+		rt.park(t, site)
+	}
+}
+
 func Spawn(site string) int {
 	rt, t := cur()
 	if rt == nil {
